@@ -286,7 +286,10 @@ func (nw *netw) apply(e Event) bool {
 		pk := nw.net[e.Pkt]
 		nd.StepNet(pk.From, pk.Data)
 		sent, _ := nd.Drain()
-		nw.observe(e.Node, fmt.Sprintf("LNet %s %s", cN(pk.From), pk.M.coq()), false, sent)
+		nw.observe(e.Node, "LNet", false, sent)
+		tr := nw.trace[e.Node]
+		m := pk.M
+		tr[len(tr)-1].Net, tr[len(tr)-1].NetFrom = &m, pk.From
 	case "proc":
 		nd.StepProc()
 		sent, _ := nd.Drain()
@@ -322,9 +325,36 @@ func (nw *netw) sealedBlocks() map[uint32]mBlk {
 	return out
 }
 
-func obsTerm(o nodeObs) string {
-	return fmt.Sprintf("(%s, mkObs %s %s %s %s)", evTerm(o), coqMsgs(o.Outs), o.Marks, coqMsgs(o.Queue),
-		"["+strings.Join(o.Actions, "; ")+"]")
+// msgTable assigns indices to the messages of one node's trace.
+type msgTable struct {
+	idx   map[string]int
+	terms []string
 }
 
-func evTerm(o nodeObs) string { return "X" + o.Ev }
+func (t *msgTable) of(m mMsg) string {
+	k := m.key()
+	i, ok := t.idx[k]
+	if !ok {
+		i = len(t.terms)
+		t.idx[k] = i
+		t.terms = append(t.terms, m.coq())
+	}
+	return fmt.Sprintf("%d", i)
+}
+
+func (t *msgTable) list(l []mMsg) string {
+	var it []string
+	for _, m := range l {
+		it = append(it, t.of(m))
+	}
+	return hx.CoqList(it)
+}
+
+func obsTerm(t *msgTable, o nodeObs) string {
+	ev := "X" + o.Ev
+	if o.Net != nil {
+		ev = fmt.Sprintf("XLNet %s %s", cN(o.NetFrom), t.of(*o.Net))
+	}
+	return fmt.Sprintf("(%s, mkObs %s %s %s %s)", ev, t.list(o.Outs), o.Marks, t.list(o.Queue),
+		"["+strings.Join(o.Actions, "; ")+"]")
+}
